@@ -927,6 +927,66 @@ theorem cycle_fixed_point :
       some [("name", "c"), ("confidence", "1"), ("cnp", "128")] := by
   decide +kernel
 
+/-- cycling and sorting a container does not depend on the order in which its definitions arrive,
+when no two of them share a key -/
+theorem cycled_sorted_perm {α : Type} (f : α → Option α) (key : α → String) (l₁ l₂ r₁ : List α) (hp : l₁.Perm l₂)
+    (h : l₁.mapM f = some r₁)
+    (hinj : ∀ x ∈ sortBy key r₁, ∀ y ∈ sortBy key r₁, key x = key y → x = y) :
+    ∃ r₂, l₂.mapM f = some r₂ ∧ sortBy key r₂ = sortBy key r₁ := by
+  obtain ⟨hnone, hperm⟩ := mapM_perm f hp
+  cases h2 : l₂.mapM f with
+  | none =>
+    have := hnone.mpr h2
+    rw [h] at this
+    cases this
+  | some r₂ =>
+    refine ⟨r₂, rfl, ?_⟩
+    have hp12 := hperm r₁ r₂ h h2
+    exact (sortBy_perm_eq key r₁ r₂ hp12 (fun x hx y hy => hinj x ((mem_sortBy key r₁ x).mpr hx) y ((mem_sortBy key r₁ y).mpr hy))).symm
+
+/-- **C08: the serialized ontology does not depend on the order in which the definitions of a
+container arrive** (object types, concepts, event types, sources), as long as no two definitions of
+one container share their name / URI: `generate_xml` writes them sorted -/
+theorem cycleOnt_order_free (o₁ o₂ o' : OntX)
+    (h1 : o₁.objectTypes.Perm o₂.objectTypes) (h2 : o₁.concepts.Perm o₂.concepts)
+    (h3 : o₁.eventTypes.Perm o₂.eventTypes) (h4 : o₁.sources.Perm o₂.sources)
+    (hc : cycleOnt o₁ = some o')
+    (k1 : ∀ x ∈ o'.objectTypes, ∀ y ∈ o'.objectTypes, attr x "name" = attr y "name" → x = y)
+    (k2 : ∀ x ∈ o'.concepts, ∀ y ∈ o'.concepts, attr x "name" = attr y "name" → x = y)
+    (k3 : ∀ x ∈ o'.eventTypes, ∀ y ∈ o'.eventTypes, attr x.attrs "name" = attr y.attrs "name" → x = y)
+    (k4 : ∀ x ∈ o'.sources, ∀ y ∈ o'.sources, attr x "uri" = attr y "uri" → x = y) :
+    cycleOnt o₂ = some o' := by
+  unfold cycleOnt at hc
+  cases e1 : o₁.objectTypes.mapM (cycle "object-type") with
+  | none => rw [e1] at hc; cases hc
+  | some ots =>
+    rw [e1] at hc
+    cases e2 : o₁.concepts.mapM (cycle "concept") with
+    | none => rw [e2] at hc; cases hc
+    | some cs =>
+      rw [e2] at hc
+      cases e3 : o₁.eventTypes.mapM cycleEt with
+      | none => rw [e3] at hc; cases hc
+      | some ets =>
+        rw [e3] at hc
+        cases e4 : o₁.sources.mapM (cycle "source") with
+        | none => rw [e4] at hc; cases hc
+        | some ss =>
+          rw [e4] at hc
+          have ho : o' = { objectTypes := sortBy (attr · "name") ots, concepts := sortBy (attr · "name") cs,
+                           eventTypes := sortBy (attr ·.attrs "name") ets, sources := sortBy (attr · "uri") ss } := by
+            have : some ({ objectTypes := sortBy (attr · "name") ots, concepts := sortBy (attr · "name") cs,
+                           eventTypes := sortBy (attr ·.attrs "name") ets, sources := sortBy (attr · "uri") ss } : OntX) = some o' := hc
+            exact (Option.some.inj this).symm
+          subst ho
+          obtain ⟨r1, a1, b1⟩ := cycled_sorted_perm (cycle "object-type") (attr · "name") _ _ ots h1 e1 k1
+          obtain ⟨r2, a2, b2⟩ := cycled_sorted_perm (cycle "concept") (attr · "name") _ _ cs h2 e2 k2
+          obtain ⟨r3, a3, b3⟩ := cycled_sorted_perm cycleEt (attr ·.attrs "name") _ _ ets h3 e3 k3
+          obtain ⟨r4, a4, b4⟩ := cycled_sorted_perm (cycle "source") (attr · "uri") _ _ ss h4 e4 k4
+          unfold cycleOnt
+          rw [a1, a2, a3, a4]
+          simp only [Option.bind_eq_bind, Option.bind_some, Option.pure_def, b1, b2, b3, b4]
+
 /-- a small ontology whose definitions arrive in another order than they are written, with an
 attribute at its default: the cycle sorts and normalises, and is then a fixed point -/
 def exOnt : OntX :=
